@@ -71,7 +71,7 @@ def cases(tier, seed):
     out.append({"kind": "file_all", "tol": 0.01, "atom_format": "full"})
     nfile = 40 if tier == "quick" else 30000
     for i in range(nfile):
-        k = int(rng.integers(1, 9))
+        k = int(rng.integers(1, 9)) if i % 7 else int(rng.integers(10, 15))      # now and then a file with two-digit type numbers
         chosen = [els[j] for j in rng.choice(len(els), size=k, replace=False)]
         tol = float(rng.choice([0.01, 0.1, 0.5]))
         mode = ["plain", "perturbed", "one_nonatomic", "default_tol", "several_nonatomic"][i % 5]
